@@ -449,6 +449,9 @@ type labPeer struct {
 	gates  sync.Map // point -> chan struct{} (armed gates)
 	gateAt chan string
 	filter func(point string, v any) any
+	phIdle atomic.Int32 // C20: 1 while the DTLS 1.3 post-handshake loop blocks in its select (ph.idle hook)
+	phQ    atomic.Int32 // C20: queue length / number of active flights reported by the last ph.idle
+	phF    atomic.Int32
 }
 
 type labRun struct {
@@ -549,6 +552,15 @@ func (p *labPeer) track(ev string, kv []any) {
 		}
 	case "fsm.recv", "fsm.finrecv", "fsm.timeout", "ph.command", "ph.timer":
 		p.status.Store(fsmBusy)
+		p.phIdle.Store(0)
+	case "ph.idle":
+		if v, ok := kvGet(kv, "queue").(int); ok {
+			p.phQ.Store(int32(v)) //nolint:gosec
+		}
+		if v, ok := kvGet(kv, "flights").(int); ok {
+			p.phF.Store(int32(v)) //nolint:gosec
+		}
+		p.phIdle.Store(1)
 	case "fsm.parsed":
 		next, _ := kvGet(kv, "next").(string)
 		failed, _ := kvGet(kv, "err").(bool)
